@@ -152,3 +152,76 @@ def case(job):
             if len(out["problems"]) > 6:
                 return out
     return out
+
+
+# ---- recursion with a by-reference parameter: rejected when built, or else right ----------------------------------------------------
+def byref_jobs():
+    return [(shape, v) for shape in ("self", "mutual", "own-local") for v in (6, 7, 8, 10)]
+
+
+def _ref_own_local(n):
+    g = [0]
+
+    def down(k, acc):
+        mine = [k]
+        acc[0] += 1
+        if k > 0:
+            down(k - 1, mine)
+        g[0] += mine[0]
+    top = [100]
+    down(n, top)
+    return g[0] * 1000 + top[0]
+
+
+def byref_case(job):
+    """sum(n, acc): acc += n; if n > 0: sum(n - 1, acc)  (acc passed by reference through every level).  PyTeal refuses by-reference
+    parameters in recursive routines; if a tree accepts the program it has to compute 1 + 2 + ... + n in the caller's variable."""
+    shape, version = job
+    from vf.core import use_repo
+    use_repo()
+    import pyteal as pt
+    from spec import avm
+    out = {"job": list(job), "problems": [], "ran": 0, "rejected": False}
+    try:
+        @pt.Subroutine(pt.TealType.none)
+        def down(n, acc: pt.ScratchVar):
+            keep = pt.ScratchVar(pt.TealType.uint64)
+            nxt = down if shape == "self" else other
+            return pt.Seq(keep.store(n * pt.Int(2)), acc.store(acc.load() + n), pt.If(n > pt.Int(0)).Then(nxt(n - pt.Int(1), acc)),
+                          pt.Assert(keep.load() == n * pt.Int(2)))
+
+        @pt.Subroutine(pt.TealType.none)
+        def other(n, acc: pt.ScratchVar):
+            return pt.Seq(acc.store(acc.load() + n), pt.If(n > pt.Int(0)).Then(down(n - pt.Int(1), acc)))
+        total = pt.ScratchVar(pt.TealType.uint64)
+        prog = pt.Seq(total.store(pt.Int(100)), down(pt.Btoi(pt.Txn.application_args[0]), total), pt.Log(pt.Itob(total.load())), pt.Approve())
+        expect = lambda n: 100 + n * (n + 1) // 2
+        if shape == "own-local":
+            # each activation passes ITS OWN local by reference to the next one, which writes it while the caller's locals are spilled
+            g = pt.ScratchVar(pt.TealType.uint64)
+
+            @pt.Subroutine(pt.TealType.none)
+            def deep(k, acc: pt.ScratchVar):
+                mine = pt.ScratchVar(pt.TealType.uint64)
+                return pt.Seq(mine.store(k), acc.store(acc.load() + pt.Int(1)), pt.If(k > pt.Int(0)).Then(deep(k - pt.Int(1), mine)), g.store(g.load() + mine.load()))
+            prog = pt.Seq(g.store(pt.Int(0)), total.store(pt.Int(100)), deep(pt.Btoi(pt.Txn.application_args[0]), total),
+                          pt.Log(pt.Itob(g.load() * pt.Int(1000) + total.load())), pt.Approve())
+            expect = _ref_own_local
+        for ss, fp in settings(version):
+            try:
+                teal = pt.compileTeal(prog, pt.Mode.Application, version=version, optimize=pt.OptimizeOptions(scratch_slots=ss, frame_pointers=fp))
+            except (pt.TealInputError, pt.TealCompileError, pt.TealTypeError, pt.TealInternalError):
+                out["rejected"] = True
+                continue
+            for n in (0, 1, 3, 5):
+                r = avm.run(teal, avm.Ctx(txn={"ApplicationArgs": [n.to_bytes(8, "big")]}))
+                out["ran"] += 1
+                want = expect(n)
+                got = int.from_bytes(r.logs[0], "big") if r.verdict == "approve" and len(r.logs) == 1 else (r.verdict, r.detail)
+                if got != want:
+                    out["problems"].append({"version": version, "setting": [ss, fp], "depth": n,
+                                            "what": f"recursion with a by-reference parameter is accepted and leaves {got} in the caller's variable, expected {want}"})
+                    break
+    except Exception as e:
+        out["problems"].append({"what": f"exception {type(e).__name__}: {str(e)[:160]}"})
+    return out
